@@ -400,17 +400,25 @@ End WF.
 
 (* ---- rows ------------------------------------------------------------------------------------------------ *)
 Lemma targeted_spec stored mk wh id : In id (targeted stored mk wh) <->
-  In id stored /\ (mk = 0 \/ id = mk) /\ match wh with None => True | Some l => In id l end.
+  exists ks, In (id, ks) stored /\ key_match mk ks = true
+             /\ match wh with None => True | Some l => In id l end.
 Proof.
-  unfold targeted. rewrite filter_In. split.
-  - intros [H1 H2]. apply andb_prop in H2. destruct H2 as [H2 H3]. repeat split; auto.
-    + apply orb_prop in H2. destruct H2 as [H2|H2]; apply Z.eqb_eq in H2; auto.
-    + destruct wh as [l|]; [|exact I]. unfold mem_z in H3. apply existsb_exists in H3.
-      destruct H3 as (x & Hx & E). apply Z.eqb_eq in E. now subst.
-  - intros (H1 & H2 & H3). split; [exact H1|]. apply andb_true_intro. split.
-    + apply orb_true_iff. destruct H2 as [H2 | H2]; [left; subst mk|right; subst mk]; apply Z.eqb_refl.
-    + destruct wh as [l|]; [|reflexivity]. unfold mem_z. apply existsb_exists. exists id.
-      split; [exact H3|apply Z.eqb_refl].
+  unfold targeted. rewrite in_map_iff. split.
+  - intros ([i ks] & E & H). cbn in E. subst i. apply filter_In in H. destruct H as [H1 H2].
+    apply andb_prop in H2. destruct H2 as [H2 H3]. cbn in *. exists ks. repeat split; auto.
+    destruct wh as [l|]; [|exact I]. unfold mem_z in H3. apply existsb_exists in H3.
+    destruct H3 as (x & Hx & E). apply Z.eqb_eq in E. now subst.
+  - intros (ks & H1 & H2 & H3). exists (id, ks). split; [reflexivity|]. apply filter_In. split; [exact H1|].
+    cbn. rewrite H2. cbn. destruct wh as [l|]; [|reflexivity]. unfold mem_z. apply existsb_exists. exists id.
+    split; [exact H3|apply Z.eqb_refl].
+Qed.
+
+(* key_match: every non-zero member of the model value's key equals the row's member *)
+Lemma key_match_spec mk ks : key_match mk ks = true ->
+  forall m k, In (m, k) (combine mk ks) -> m = 0 \/ k = m.
+Proof.
+  unfold key_match. rewrite forallb_forall. intros H m k Hin. specialize (H _ Hin). cbn in H.
+  apply orb_prop in H. destruct H as [H|H]; apply Z.eqb_eq in H; auto.
 Qed.
 
 Lemma cells_for_rows rows set x : In x (cells_for rows set) ->
